@@ -159,7 +159,7 @@ def run(ctx):
                        'fixed point over the call graph; num-bigint division contracts trusted). PROV-DEFAULTOPS: every division kernel hands the generated '
                        'DEFAULT_PRECISION to impl_division, whose loop consumes it. R-TABLE: the primitive/BigInt operand forms are path-enumerated: the '
                        '+-1 and +-2 shortcuts return self, -self, half(), -half(); all other paths convert the primitive exactly (From/TryFrom) and '
-                       'divide with the operands in order. NOT decided: correct rounding of impl_division.')
+                       'divide with the operands in order. R-SCALE (dims kind with inductive loop invariants): in impl_division the numerator, quotient and remainder stay a constant number of powers of ten from `scale` through both loops and the result is labelled accordingly. NOT decided: the digits of the quotient and its final rounding increment.')
     F = ctx.facts('default', 'rel')
     n, tot = guard_clause(ctx, F, ('std::ops::Div', 'std::ops::DivAssign'))
     rep.floor('Div/DivAssign impl functions with a non-float divisor', n, 102)
@@ -169,6 +169,24 @@ def run(ctx):
     R.default_ops(rep, F, F._prov)
     rep.obs = rep.obs[:before] + [o for o in rep.obs[before:] if 'impl_division' in o['key']]
     ns = shortcut_table(rep, F)
+    # scale bookkeeping of the division kernel: the digits and the scale stay in step through both loops
+    from rules import scale
+    from props import exact
+    exact.prepare(F)
+    fdiv = F.fns.get('impl_division')
+    if fdiv is None:
+        rep.violation('R-SCALE', 'impl_division:missing', 'anchor function not found (fail closed)')
+    else:
+        rep.add_functions([fdiv.name])
+        v, msgs, paths = scale.analyse(fdiv, 'dims', scale_params=(3,), int_dims={1: ('par', 3)})
+        a = scale.analyse.last
+        key = fdiv.key + ':scale-bookkeeping'
+        if v == 'ok' and getattr(a, 'loop_ok', 0) >= 2:
+            rep.ok('R-SCALE', key, 'all %d paths: with num standing for num*10^-scale, both loops keep every integer a constant number of powers of ten from `scale` (inductive step proved on %d back edges), quotient*10 + q adds equal powers of ten, and the result is labelled with the power of ten of its integer' % (paths, a.loop_ok), fdiv.where())
+        elif v == 'violation':
+            rep.violation('R-SCALE', key, msgs[0][:400], fdiv.where())
+        else:
+            rep.undecided('R-SCALE', key, (msgs or ['loop invariants not established'])[0][:200], fdiv.where())
     rep.floor('primitive-operand Div forms', ns, 80)
     rep.trust('num-bigint: BigInt/BigUint Div, Rem, div_rem panic on a zero divisor')
     rep.trust('rustc MIR construction and trait resolution (nightly) for the same source the stable build compiles')
